@@ -3,7 +3,9 @@ package main
 // Canonical projection of go-sfnt layout structures for comparison "decoded = original".
 // Maps are written with sorted keys, nil and empty slices/maps are identified (the
 // binary formats cannot tell them apart), pointers are dereferenced (nil pointer = null),
-// interface values carry their dynamic type name.
+// interface values carry their dynamic type name.  Normal forms: a classdef.Table entry with
+// class 0 says nothing (a glyph without entry is in class 0) and is dropped; the members of a
+// coverage.Set are its keys (the library tests membership by key), so every value counts as true.
 
 import (
 	"crypto/sha256"
@@ -76,8 +78,12 @@ func canonValue(sb *strings.Builder, v reflect.Value) {
 			v reflect.Value
 		}
 		var items []kv
+		tname := v.Type().String()
 		it := v.MapRange()
 		for it.Next() {
+			if tname == "classdef.Table" && it.Value().Uint() == 0 {
+				continue
+			}
 			var kb strings.Builder
 			k := it.Key()
 			if s, ok := k.Interface().(fmt.Stringer); ok && k.Kind() != reflect.Struct {
@@ -94,7 +100,11 @@ func canonValue(sb *strings.Builder, v reflect.Value) {
 			} else {
 				canonValue(&kb, k)
 			}
-			items = append(items, kv{kb.String(), it.Value()})
+			val := it.Value()
+			if tname == "coverage.Set" {
+				val = reflect.ValueOf(true)
+			}
+			items = append(items, kv{kb.String(), val})
 		}
 		sort.Slice(items, func(i, j int) bool { return items[i].k < items[j].k })
 		sb.WriteString("{")
